@@ -13,6 +13,7 @@ import tab
 import fsm2
 import esc
 import attr
+import dead
 
 
 def _c11_fsm(ctx):
@@ -113,7 +114,7 @@ PROPS = {
                        "The other equivalences (translation, rotation of the circle, permutation, renaming, units) relate different runs and are not decided.",
     },
     "C12": {
-        "rules": [esc.rule_esc_adjxml, esc.rule_str2xml, fsm2.rule_xsd_adjxml, esc.rule_ysign, lin.rule_unit],
+        "rules": [esc.rule_esc_adjxml, esc.rule_str2xml, fsm2.rule_xsd_adjxml, esc.rule_ysign, lin.rule_unit, dead.rule_dead_local],
         "explanation": "R-ESC: three-valued taint analysis (clean / sanitised / tainted, field-based, function summaries) - no PointID, "
                        "description, extern value or exception message reaches a markup sink of LocalNetworkXML, its observation visitor, "
                        "XMLerror, the HTML and SVG writers unsanitised; the sanitiser str2xml maps < > & \" ' to the right entities; the "
@@ -122,7 +123,7 @@ PROPS = {
     },
     "C13": {
         "rules": [attr.rule_attr_flow, attr.rule_attr_export, esc.rule_esc_export, esc.rule_ysign, tab.rule_cluster_casts,
-                  sib.rule_export_scale_siblings],
+                  sib.rule_export_scale_siblings, dead.rule_dead_local],
         "explanation": "R-ATTR: per GKFparser handler the accepted attribute names are extracted; every parsed attribute value reaches "
                        "the model (A2); attributes written by export_xml are accepted by the corresponding handler and the schema, and every "
                        "stored attribute is written back (A4). R-ESC for export_xml/DisplayObservationVisitor, R-YSIGN, and export covers all "
@@ -143,7 +144,7 @@ PROPS = {
     },
     "C19": {
         "rules": [tab.rule_g3_visitors, lazy.rule_lazy_chain, lazy.rule_lazy_adj, tab.rule_algorithms, fsm2.rule_dataparser,
-                  esc.rule_esc_g3, pair.rule_newdelete],
+                  esc.rule_esc_g3, pair.rule_newdelete, dead.rule_dead_g3],
         "explanation": "R-VIS V2 every g3 visitor covers all concrete g3 observation classes; R-LAZY stage chain of g3::Model and "
                        "typestate of Adj; R-TAB T1 algorithm names; R-FSM DataParser automaton (no silent error, absorbing error state, "
                        "depth discipline, init() role table verified against its body); R-ESC g3 writers; R-PAIR P2. Adjusted "
